@@ -191,6 +191,10 @@ Proof. exact st_run_op_new. Qed.
 Theorem C07_boot_replaces_structs : forall S ct, ctl_structs (ctl_boot S ct) = S.
 Proof. exact ctl_boot_structs. Qed.
 
+Theorem C07_history_uses_last_tables :
+  forall steps ct, ctl_structs (fold_left ctl_apply steps ct) = last_structs steps (ctl_structs ct).
+Proof. exact history_uses_last_tables. Qed.
+
 Theorem C07_read_struct_current_tables :
   forall ct buffer nbr M c core name off n,
     sfile_ok (ctl_structs ct) -> 1 <= buffer < 2 ^ 32 ->
